@@ -271,9 +271,21 @@ func GenProject(t *rapid.T, pf Profile) *Project {
 			c.Security = genSec(t, "ctrlSec", secNames)
 		}
 		c.Desc = genDesc(t, "ctrlDesc")
+		bare := false
+		if ci > 0 && rapid.IntRange(0, 5).Draw(t, "bareController") == 0 {
+			// a controller without any doc comment at all: no tag, no prefix, no security, no description (gleece warns
+			// about the missing tag); whatever is documented around it belongs to other declarations
+			c.Tag, c.HasRoute, c.Route, c.Security, c.Desc = nil, false, "", nil, ""
+			prefixes = prefixes[:len(prefixes)-1]
+			prefixParam = ""
+			bare = true
+		}
 		c.Grouped = !pf.NoLayoutNoise && rapid.IntRange(0, 2).Draw(t, "grouped") == 0
 		if c.Grouped && rapid.IntRange(0, 2).Draw(t, "groupDoc") > 0 {
 			c.GroupDoc = "Types of this file, kept in one declaration group."
+		}
+		if bare {
+			c.Grouped, c.GroupDoc = false, "" // a group's doc comment would stand in for the missing one
 		}
 		if !pf.NoLayoutNoise {
 			p.Noise = append(p.Noise, rapid.IntRange(0, 7).Draw(t, "noise"))
